@@ -844,6 +844,11 @@ fn entry_points_impl(attr: TokenStream2, item: TokenStream2) -> TokenStream2 {
     inner(attr, item).unwrap_or_else(syn::Error::into_compile_error)
 }
 
+#[cfg(all(test, feature = "verif-hook"))]
+mod verif_hook {
+    include!(env!("SYLVIA_VERIF_HARNESS"));
+}
+
 #[cfg(test)]
 mod test {
     use std::{env, fs};
